@@ -323,7 +323,7 @@ fn main() {
     }
     dist.insert("dates".into(), json!(ndates));
 
-    // 5. the design-phase witnesses, always
+    // 5. the design-phase witnesses, always (F06 and F08 were repaired in /repo: 6761320, 6e3cec0)
     {
         let mut cx = Ctx::new("en", "en");
         for (text, class, what) in [
@@ -339,13 +339,33 @@ fn main() {
             let bad = match (class, &o) {
                 ("c19-sign-lost-negcur-exponent", Obs::Num(v, _)) => *v > 0.0,
                 ("c19-nonfinite-stored", Obs::Num(v, _)) => !v.is_finite(),
+                ("c19-sign-lost-negcur-exponent", _) | ("c19-nonfinite-stored", _) => false,
                 (_, Obs::Num(_, _)) => true,
                 _ => false,
             };
             if bad { orc.fail(class, json!({"locale": "en", "text": text}), format!("{what}: cell is {}", o.line())); }
         }
+        // the binary64 overflow boundary, exactly: T = 2^1024 - 2^970 (first decimal that rounds to infinity),
+        // T - 1, T + 1, the largest finite double, and the same with a fraction / exponent / grouping / sign
+        let t = "179769313486231580793728971405303415079934132710037826936173778980444968292764750946649017977587207096330286416692887910946555547851940402630657488671505820681908902000708383676273854845817711531764475730270069855571366959622842914819860834936475292719074168444365510704342711559699508093042880177904174497792"; let tm1 = "179769313486231580793728971405303415079934132710037826936173778980444968292764750946649017977587207096330286416692887910946555547851940402630657488671505820681908902000708383676273854845817711531764475730270069855571366959622842914819860834936475292719074168444365510704342711559699508093042880177904174497791"; let tp1 = "179769313486231580793728971405303415079934132710037826936173778980444968292764750946649017977587207096330286416692887910946555547851940402630657488671505820681908902000708383676273854845817711531764475730270069855571366959622842914819860834936475292719074168444365510704342711559699508093042880177904174497793"; let mx = "179769313486231570814527423731704356798070567525844996598917476803157260780028538760589558632766878171540458953514382464234321326889464182768467546703537516986049910576551282076245490090389328944075868508455133942304583236903222948165808559332123348274797826204144723168738177180919299881250404026184124858368";
+        let mut lits: Vec<String> = vec![t.into(), tm1.into(), tp1.into(), mx.into()];
+        for x in [t, tm1, tp1, mx] {
+            lits.push(format!("-{x}")); lits.push(format!("{x}.0")); lits.push(format!("{x}.5")); lits.push(format!("{x}e0")); lits.push(format!("{x}0e-1"));
+            lits.push(format!("{}.{}e308", &x[..1], &x[1..])); lits.push(format!("0.{x}e309")); lits.push(format!("{x}%")); lits.push(format!("${x}")); lits.push(format!("-${x}"));
+            lits.push(format!("{x}00%"));
+        }
+        for x in ["1e308", "1.7976931348623157e308", "1.7976931348623158e308", "1.7976931348623159e308", "1.797693134862315807e308", "1.797693134862315808e308",
+                  "1.8e308", "2e308", "1e309", "0e999", "0.0e99999999999999999999", "1e400", "1e401", "1e-400", "1e-99999999999999999999", "1e99999999999999999999",
+                  "0.00000000000000000001e328", "0.00000000000000000001e329", "17976931348623157e292", "17976931348623159e292", "1e30800%", "-$1e308", "-$1e309", "$2e308"] {
+            lits.push(x.to_string());
+        }
+        for text in &lits {
+            let o = cx.observe(text);
+            cs.case(&format!("ui en en {}", wire(text)), &o.line());
+            orc.checked += 1;
+            if let Obs::Num(v, _) = &o { if !v.is_finite() { orc.fail("c19-nonfinite-stored", json!({"locale": "en", "text": text}), format!("cell is {}", o.line())); } }
+        }
     }
-
     // 4. the property statement on the implementation: strings generated FROM the grammar
     let ngen = if a.thorough { 120_000 } else { 30_000 };
     let mut pct_inexact = 0u64;
@@ -391,6 +411,10 @@ fn main() {
                     let _ = g.dec;
                     if !ok { orc.fail("c19-format-kind", inp.clone(), format!("format {:?} is not of the kind of the input", f)); }
                 }
+                // a numeral whose magnitude overflows binary64 cannot be stored as that number: it stays text
+                _ if !mag.is_finite() => {}
+                other if g.pct && !g.lit.parse::<f64>().unwrap().is_finite() =>
+                    orc.fail("c19-percent-numeral-overflow", inp, format!("the percentage is representable ({:e}) but the numeral before %% overflows: cell is {}", expect, other.line())),
                 other => orc.fail("c19-number-not-recognised", inp, format!("cell is {}", other.line())),
             }
         }
